@@ -339,6 +339,16 @@ def eval_tab_scalar(case):
     if m:
         fails.append(Fail(f'C03:Table.scalar{sym}:truthful', m))
     side = 'table-op-scalar' if case['side'] == 'L' else 'scalar-op-table'
+    try:
+        col0 = list(r.cols()[0])
+        want0 = [ARITH[sym](x, 2) if case['side'] == 'L' else ARITH[sym](2, x) for x in t.cols()[0]]
+        if len(r.cols()) != len(names) or col0 != want0:
+            # not the table's columns any more (rows became columns): a naming verdict would be meaningless,
+            # but the names are gone all the same - keep it apart from the plain name loss
+            return fails + names_fail(f'C18:Table.{side}:result-transposed-and-unnamed', f'mk_table({names!r}) {sym} 2 ({side}), '
+                                      f'first result column {col0!r} instead of {want0!r}', list(names), r)
+    except Exception:
+        pass
     return fails + names_fail(f'C18:Table.{side}:names-not-kept', f'mk_table({names!r}) {sym} 2 ({side})', list(names), r)
 
 
@@ -486,7 +496,7 @@ def cases(tier, seed):
                     yield {'op': 'tab-tab', 'left': lit(list(ln)), 'right': lit(list(rn)), 'sym': sym}
     for w in range(1, 3 if q else 4):
         for names in itertools.product(NAMES, repeat=w):
-            for ch in chains(TAB_OPS, 2 if q else 3):
+            for ch in chains(TAB_OPS, 2 if (q or w == 3) else 3):       # width 3: chains <= 2 only
                 yield {'op': 'tab-chain', 'names': lit(list(names)), 'chain': ch}
     # a join that matches nothing still is a joined table
     for names in itertools.product(NAMES, repeat=2):
